@@ -185,6 +185,9 @@ func TestC02(t *testing.T) {
 
 		t.Repeat(map[string]func(*rapid.T){
 			"createIndex": func(t *rapid.T) { mc.ActCreateIndex(t, twin) },
+			"dropIndex":   func(t *rapid.T) { mc.ActDropIndex(t, twin) },
+			"dropColumn":  func(t *rapid.T) { mc.ActDropColumn(t, twin) },
+			"recreateCol": func(t *rapid.T) { mc.ActLateColumn(t, twin) },
 			"txn":         runTxn,
 			"txn2":        runTxn,
 			"txn3":        runTxn,
